@@ -11,7 +11,7 @@ From PBC Require Import Base.CInt Base.Bits Gen.LeafC Spec.Wire
      Impl.Desc Impl.Mem Impl.Enc Impl.Pack Impl.WF Impl.Unpack Impl.Canon
      Proofs.LeafEnc Proofs.EncLemmas Proofs.LeafDec Proofs.SizePack Proofs.ScanRec Proofs.ScanRecs
      Proofs.CellRT2 Proofs.FieldRT Proofs.FieldPkg Proofs.FieldPkg2 Proofs.MsgInd Proofs.MsgRT Proofs.MsgRT2 Proofs.MsgRT3
-     Proofs.MsgRT4.
+     Proofs.MsgRT4 Proofs.MemberCount.
 Import ListNotations.
 Local Open Scope Z_scope.
 
@@ -31,7 +31,7 @@ Theorem unpack_quads : forall k d md um unk qs,
   length um = md_n_oneofs md ->
   canon_unions (md_fields md) 0 um = true ->
   forallb (canon_unk (map f_id (md_fields md))) unk = true ->
-  zlen (concat (map q_F qs) ++ concat (map pk_unknown unk)) <= 2147483647 ->
+  zlen (concat (map q_F qs) ++ concat (map pk_unknown unk)) <= max_input ->
   unpack E (S k) d (concat (map q_F qs) ++ concat (map pk_unknown unk)) = Ok (Msg d (map q_s qs) um unk).
 Proof.
   intros k d md um unk qs Ed Q1 Q4 Q5 Cn Cu Ck Hlen.
@@ -39,6 +39,7 @@ Proof.
   set (usub := unpack E k) in *.
   set (a := concat (map q_F qs)) in *.
   set (U := concat (map pk_unknown unk)) in *.
+  pose proof Hlen as Hlen0. unfold max_input in Hlen.
   rewrite zlen_app in Hlen. pose proof (zlen_nonneg _ a). pose proof (zlen_nonneg _ U).
   assert (Hids : forall q, In q qs -> 0 < f_id (q_f q) < 536870912).
   { intros q Hq. apply (desc_ok_fields _ _ D). rewrite <- Q1. apply in_map. exact Hq. }
@@ -87,6 +88,7 @@ Proof.
       (length (concat (map q_r qs)) + (length unk + (S (length a + length U) - length (concat (map q_r qs)) - length unk)))%nat by lia.
     rewrite S1, S2. destruct (S (length a + length U) - length (concat (map q_r qs)) - length unk)%nat; cbn [scan_loop]; rewrite A2; reflexivity. }
   rewrite Hscan. cbn [bind].
+  rewrite (member_limit_ok _ _ _ _ Hscan eq_refl Hlen0).
   rewrite B2, B1, SL2, SL1. cbn [app]. rewrite <- Q1.
   rewrite (alloc_quads qs Q5). cbn [bind].
   rewrite M2, M1. cbn [length]. rewrite app_nil_r. rewrite rev_app_distr, !rev_involutive.
